@@ -56,6 +56,7 @@ def handlers : List (String × Handler) :=
     ("c17.rep", C17.handlerRep),
     ("c01.answers", C01.handler),
     ("c01.deep", C01.deepHandler),
+    ("c04.consult", C01.consultHandler),
     ("c03.answers", C01.handler),
     ("c04.answers", C01.handler),
     ("c06.lex", C06.lexHandler),
